@@ -3,8 +3,8 @@ import itertools, random
 from .. import core, hist, world as W, ref
 from .c01 import fix_disagreements
 
-MODULES = ['DsdVerif.Props.C10', 'DsdVerif.Props.PySetters']
-GEN_FILES = ['Dunders', 'PySetters', 'PyComplexS', 'PySetObjects']
+MODULES = ['DsdVerif.Props.C10', 'DsdVerif.Props.PySetters', 'DsdVerif.Props.PyDunders']
+GEN_FILES = ['Dunders', 'PySetters', 'PyComplexS', 'PySetObjects', 'PyDunders']
 THEOREM_NAMES = ['lexLt_strictTotal', 'strLt_strictTotal', 'ckeyLt_strictTotal', 'mkeyLt_strictTotal', 'memLt_strictTotal', 'rkeyLt_strictTotal_on_typed', 'le_total', 'le_trans', 'lt_iff_le_not_le', 'le_antisymm', 'dom_eq_hash', 'sortBy_perm', 'sortBy_sorted', 'sortBy_perm_invariant']
 THEOREMS = ['Dsd.C11.' + t for t in THEOREM_NAMES] + ['Dsd.C10.dunders_coherent', 'Dsd.C10.dunder_keys'] + ['Dsd.PySetters.' + t for t in [
     # the identity-protecting setters of all five classes as written in the source (translator/pysetters.py -> Gen/PySetters.lean): each refuses
@@ -13,6 +13,8 @@ THEOREMS = ['Dsd.C11.' + t for t in THEOREM_NAMES] + ['Dsd.C10.dunders_coherent'
     'py_MacrostateS_complexes_set_refused', 'py_MacrostateS_representative_set_refused', 'py_ReactionS_reactants_set_refused',
     'py_ReactionS_products_set_refused', 'py_ReactionS_rtype_set_refused', 'py_ReactionS_name_set_refused', 'rtype_in_RTYPES_refused',
     'py_DomainS_getters', 'py_identity_readonly', 'py_getters_unaffected']]
+# the 28 comparison / hash methods as written in the source (translator/pydunders.py -> Gen/PyDunders.lean): == iff keys equal, <= a total preorder refined by ==, equal => equal hashes, hash never raises
+THEOREMS += ['Dsd.PyDunders.' + t for t in ['coherent_of', 'py_DomainS_coherent', 'py_ComplexS_coherent', 'py_MacrostateS_coherent', 'py_ReactionS_coherent', 'py_order_coherent', 'py_order_is_model', 'py_order_foreign', 'plex_strictTotal']]
 ASSUMPTIONS = [
     'the comparison operators of the five classes are functions of the canonical forms; they are modelled by strict orders on the keys '
     '(Model/Objects.lean: strLt, ckeyLt, mkeyLt, memLt, rkeyLt, leOf) and tied to __eq__/__lt__/__le__/__hash__ by the `cmp` stream',
@@ -252,6 +254,8 @@ def run(res, proof):
         del olds, twins
     from .pysetters_stream import source_derived_pysetters
     source_derived_pysetters(res, proof)      # the read-only setters as translated from the working tree against the real objects
+    from .pydunders_stream import source_derived_pydunders
+    source_derived_pydunders(res, proof)     # the comparison methods as translated from the working tree, all ordered pairs
     for l in hl[:8]:
         res.sample(l)
     res.rule = ('populations: 34 domains (incl. numbered / mixed names and other lengths in other registries), %d complexes (incl. pairs differing only in structure and copies in a subclass registry), %d '
